@@ -80,8 +80,27 @@ RECURSIVE ValidFrom(_, _)
 ValidFrom(s, i) == IF i > Len(s) THEN TRUE ELSE LET d == DecodeRune(s, i) IN ~IsEncodingError(d) /\ ValidFrom(s, i + d.size)
 ValidUtf8(s) == ValidFrom(s, 1)
 
-\* strings.ToValidUTF8(s, "�") applied byte by byte (NOT run by run): what reading back gives
-ToValid(s) == BytesOf(Runes(s))
+\* what reading back gives: every invalid BYTE replaced by U+FFFD (byte by byte, not run by run)
+ToValidScan(s) == BytesOf(Runes(s))
+
+\* The same functions position by position, without a recursion as deep as the string is long.
+\* UTF-8 is self-synchronising: position i is consumed as a non-first byte of a character of the
+\* left-to-right scan iff a well-formed sequence starting at one of the three positions before it
+\* reaches it (such a sequence starts with a lead byte, which is never inside another well-formed
+\* sequence, so its start is itself a position of the scan).
+Covered(s, i) == \E j \in (IF i > 3 THEN i - 3 ELSE 1)..(i - 1) :
+                   s[j] >= 194 /\ LET d == DecodeRune(s, j) IN ~IsEncodingError(d) /\ d.size > i - j
+RECURSIVE CatR(_, _, _)
+CatR(f, lo, hi) == IF lo > hi THEN <<>> ELSE IF lo = hi THEN f[lo]
+                   ELSE LET m == (lo + hi) \div 2 IN CatR(f, lo, m) \o CatR(f, m + 1, hi)
+ToValidFast(s) ==
+  CatR([i \in 1..Len(s) |->
+          IF s[i] < 128 THEN <<s[i]>>
+          ELSE IF Covered(s, i) THEN <<>>
+          ELSE LET d == DecodeRune(s, i) IN IF IsEncodingError(d) THEN RuneErrorBytes ELSE SubSeq(s, i, i + d.size - 1)],
+       1, Len(s))
+ValidUtf8Fast(s) == \A i \in 1..Len(s) : s[i] < 128 \/ Covered(s, i) \/ ~IsEncodingError(DecodeRune(s, i))
+ToValid(s) == IF Len(s) <= 48 THEN ToValidScan(s) ELSE ToValidFast(s)
 
 \* bytewise order of Go strings (`<` on strings; sort.Slice in encodeObject)
 RECURSIVE BytesLessFrom(_, _, _)
